@@ -35,8 +35,15 @@ def _at_most_once(pr, over):
     return iv is not None and iv[1] is not None and iv[1] <= 1
 
 
+def _is_constant_hole(e):
+    """A hole the context has narrowed to a literal constant: evaluating it has no effect, so its
+    multiplicity and position are irrelevant."""
+    n = e.node
+    return hasattr(n, "kinds") and set(n.kinds) <= {"Constant"}
+
+
 def _hole_events(evs):
-    return [e for e in evs if e.kind in ("X", "raw", "S")]
+    return [e for e in evs if e.kind in ("X", "raw", "S") and not _is_constant_hole(e)]
 
 
 def rule_r1(ctx):
@@ -124,7 +131,7 @@ def rule_r2(ctx):
             kind = kinds_label(node.kinds)
             table = _rank_table(kind)
             evs, w = path_events(pr)
-            seq = [e for e in evs if e.kind in ("X", "raw", "S", "raw-target")]
+            seq = [e for e in evs if e.kind in ("X", "raw", "S", "raw-target") and not _is_constant_hole(e)]
             # (a) statement-level order
             last_rank, last_ev = -1, None
             for e in seq:
